@@ -126,6 +126,7 @@ class Interp:
         self.cur_dest_ty = None
         self.cur_state = None
         self.summaries = None
+        self.fork_log = None
         import models
         models.install(self)
 
@@ -137,6 +138,8 @@ class Interp:
         self.entry_state = None
         self.slice_len = None
         self.cur_state = None
+        self.fork_log = None
+        self.summaries = None
         if budget is not None:
             self.budget = budget
         return self
@@ -1213,7 +1216,12 @@ class Interp:
             act = dict(active)
             act[bb] = backs
             nret = len(frame.retvals)
+            flog = None
+            if self.fork_log is not None:
+                flog = dict(fn=frame.fn['path'], value=v, branches=[])
+                self.fork_log.append(flog)
             for (tg, val) in targets:
+                nr0 = len(frame.retvals)
                 s1 = st0.copy()
                 self.refine(frame, s1, t, v, val, [x for (_b, x) in targets if x is not None])
                 if tg == bb:
@@ -1222,6 +1230,11 @@ class Interp:
                 r = self.exec_from(frame, s1, tg, join_bb, act)
                 if r is not None:
                     outs.append(r)
+                if flog is not None:
+                    rets = [rv for (rv, _s) in frame.retvals[nr0:]]
+                    if r is not None and self.lobj(frame, 0) in r.mem:
+                        rets.append(r.mem[self.lobj(frame, 0)])      # value of the return place where the branch re-joins
+                    flog['branches'].append((val, rets, r is not None))
             if backs:
                 nxt = cur
                 for s2 in backs:
